@@ -41,7 +41,7 @@ SLOTS_THOROUGH = {
     "derived": ["none", "one", "chain", "chain-ooo", "ratedep"],
     "ptype": ["float", "int"],
     "ia": [0, 1],
-    "ct": ["none", "cond", "time", "condexpr", "rootsq"],
+    "ct": ["none", "cond", "time", "condexpr", "rootsq", "localimport"],
     "free": [0, 1, 2],
     "untr": [0, 1],
 }
@@ -52,7 +52,7 @@ SLOTS_QUICK = {
     "derived": ["none", "chain", "chain-ooo", "ratedep"],
     "ptype": ["float", "int"],
     "ia": [0, 1],
-    "ct": ["none", "cond", "time", "condexpr", "rootsq"],
+    "ct": ["none", "cond", "time", "condexpr", "rootsq", "localimport"],
     "free": [0, 1, 2],
     "untr": [0, 1],
 }
@@ -113,6 +113,9 @@ def build_model(c):
         m.add_reaction("rc", F.cond_rate, args=["x1", "k2"], stoichiometry={"x1": -1})
     elif c["ct"] == "condexpr":
         m.add_reaction("rc", F.cond_expr, args=["x1", "k2"], stoichiometry={"x1": -1})
+    elif c["ct"] == "localimport":
+        m.add_reaction("rc", F.local_import_fn, args=["x1", "k2"], stoichiometry={"x1": -1})
+        m.add_reaction("rc2", F.module_helper_fn, args=["x1", "k1"], stoichiometry={"x1": -1})
     elif c["ct"] == "rootsq":
         m.add_reaction("rc", F.rootsq, args=["x1", "k2"], stoichiometry={"x1": -1})
     elif c["ct"] == "time":
